@@ -50,7 +50,18 @@ class C10(Prop):
             "retain / error / complete / unsubscribe(-all); every lock acquisition of the real code is recorded "
             "through hook H2 with the set of cells held at that moment, and every subscriber callback likewise "
             "(single thread). Compared token by token with the lock program `Conc.footprint` of the same operation "
-            "on the same shape (cells renamed by first acquisition). Oracle on the implementation trace alone: no "
+            "on the same shape (cells renamed by first acquisition). The same over trees (vlib/locksgen.py): root "
+            "SubjectThreads | BehaviorSubject<_, SubjectThreads> | share_threads() over a source that emits 0-2 items "
+            "(and possibly a terminal) inside connect(); subscriber chains additionally over observe_on_threads / "
+            "delay_threads (H1 executor: every task poll, the pending first poll of a delay task, error forwarded "
+            "at once by delay); nested subjects / behaviour subjects as observers (3 levels); operations next / "
+            "error / complete / is_finished / len / retain / unsubscribe on every subject of the tree, subscribing "
+            "a new chain to any of them (first and later subscription of a share, greeting of a behaviour "
+            "subject), unsubscribe() of every subscription (SubscriberThreads, FinalizerSubscription, "
+            "MultiSubscriptionThreads with every TaskHandle, RefCountSubscription): all chains of <= 2 stages under "
+            "each root, all nestings of chains of <= 1 stage, random larger trees with random scripts; only operations "
+            "whose real run has no data-dependent early exit are generated (the generator keeps the book). "
+            "Oracle on the implementation trace alone: no "
             "cell is re-acquired by its holder; the held-before relation over the whole case is acyclic (so a rank "
             "exists: hypothesis of rank_deadlock_free); every callback runs with its subscriber's slot held "
             "(hypothesis of callbacks_serialised); sections are properly nested. Suite `inject`: every one-preemption "
@@ -94,6 +105,10 @@ class C10(Prop):
             term = ["error", "3"] if "cell" in c else ["complete"]
             out.append(Case("locks", "threads", [("subs", [c])],
                             [["next", "1"], ["size"], ["retain"], ["next", "2"], term], {"kind": "single-chain"}))
+        # the rest of the footprint model: behaviour subjects, share / ref_count, scheduler tasks, nested subjects,
+        # subscription while others exist, every unsubscribe (vlib/locksgen.py)
+        from .. import locksgen as lkg
+        out += lkg.cases(tier, seed)
         # lock traces of whole pipelines (field `locktrace`): merge_all_threads with subscription and
         # unsubscription, scheduler chains (observe_on/delay/debounce/… _threads) with task polls
         import importlib
@@ -182,6 +197,7 @@ class C10(Prop):
                 return f
         edges = set()
         slot_of = {}
+        guards = {}
         for k in range(len(case.events)):
             b = lines.get(k)
             if b is None:
@@ -196,7 +212,20 @@ class C10(Prop):
                         return {"kind": "relock", "event": k, "detail": b}
                     for h in held:
                         edges.add((h, n))
-                if kind == "c" and case.suite == "locks":
+                if kind == "c" and case.suite == "locks" and case.field("root"):
+                    # a probe is called under a cell that guards it (hypothesis of callbacks_serialised): all its
+                    # callbacks share a held cell — but the greeting of a behaviour subject, which goes to an
+                    # observer no other thread can know yet
+                    if not held:
+                        return {"kind": "callback-unguarded", "event": k,
+                                "detail": f"callback of subscriber {n} with no cell held: {b}"}
+                    if "subscribe" not in case.events[k]:
+                        g = guards.setdefault(n, set(held))
+                        g &= set(held)
+                        if not g:
+                            return {"kind": "callback-slot-changed", "event": k,
+                                    "detail": f"the callbacks of subscriber {n} have no guarding cell in common: {b}"}
+                elif kind == "c" and case.suite == "locks":
                     if not held:
                         return {"kind": "callback-unguarded", "event": k,
                                 "detail": f"callback of subscriber {n} with no cell held: {b}"}
@@ -234,6 +263,10 @@ class C10(Prop):
             return cg.signature(case, failure)
         if case.suite != "locks":
             return f"{failure['kind']}|{case.suite}"
+        if case.field("root"):
+            from .. import locksgen as lkg
+            ops = sorted({e[2] if e[0] == "on" else e[0] for e in case.events} & {"subscribe", "unsub", "poll", "pend"})
+            return f"{failure['kind']}|locks|{','.join(sorted(lkg.atoms(case.field('root'))))}|{','.join(ops)}"
         elems = sorted({e for c in case.field("subs") for e in c})
         return f"{failure['kind']}|locks|{','.join(elems)}"
 
@@ -253,6 +286,9 @@ class C10(Prop):
                 del c.events[i]
                 cands.append(c)
             return cands
+        if case.field("root"):
+            from .. import locksgen as lkg
+            return lkg.shrink_candidates(case)
         for i in range(len(case.events) - 1, 0, -1):     # keep the leading `next`
             c = case.copy()
             del c.events[i]
